@@ -80,6 +80,30 @@ def generate(rng, tier):
                 fams = [(rng.choice(list(fam)).value, rng.choice([0, 1, 2, 3])) for _ in range(rng.randint(0, 4))]
                 dibs.append(f"{k}:" + ",".join(f"{a}.{b}" for a, b in fams))
         yield {"op": "c46 parse " + (";".join(dibs) if dibs else "-")}
+    # scan: the real GatewayScanner response callback fed with plain and extended answers of the same device(s), in both orders,
+    # over the core version (absent, 1, 2, 3, 4) and secured-families combinations
+    tcp = f"{fam.TUNNELING.value}.2"
+    for core in (None, 1, 2, 3, 4, 255):
+        for sec in (None, [fam.TUNNELING], [fam.ROUTING], [fam.TUNNELING, fam.ROUTING]):
+            for filt in ("11100", "00011", "11111", "01000"):
+                supp = ([f"{fam.CORE.value}.{core}"] if core is not None else []) + [f"{fam.DEVICE_MANAGEMENT.value}.1", tcp, f"{fam.ROUTING.value}.1"]
+                plain = "P@1=O;S:" + ",".join(supp)
+                ext = "E@1=O;S:" + ",".join(supp) + (";X:" + ",".join(f"{f.value}.1" for f in sec) if sec is not None else "")
+                for order in ([plain, ext], [ext, plain], [plain], [ext], [plain, ext, plain], [plain.replace("@1", "@2"), ext]):
+                    yield {"op": f"c46 scan {filt} " + "|".join(order)}
+    for _ in range(300 if tier == "quick" else 6000):
+        rs = []
+        for _ in range(rng.randint(1, 4)):
+            k, ep = rng.choice("PE"), rng.choice([1, 1, 2])
+            dibs = ["O"] if rng.random() < 0.7 else []
+            if rng.random() < 0.9:
+                fams = [(rng.choice([fam.CORE, fam.CORE, fam.TUNNELING, fam.ROUTING, fam.SECURITY, fam.DEVICE_MANAGEMENT]).value, rng.choice([0, 1, 2, 3]))
+                        for _ in range(rng.randint(0, 4))]
+                dibs.append("S:" + ",".join(f"{a}.{b}" for a, b in fams))
+            if k == "E" and rng.random() < 0.6:
+                dibs.insert(rng.randrange(len(dibs) + 1), "X:" + ",".join(f"{f.value}.1" for f in rng.sample([fam.TUNNELING, fam.ROUTING, fam.CORE], rng.randint(0, 2))))
+            rs.append(f"{k}@{ep}=" + (";".join(dibs) or "-"))
+        yield {"op": f"c46 scan {''.join(rng.choice('01') for _ in range(5))} " + "|".join(rs)}
     # auto: single gateway exhaustive
     hfs = ["-", "4353", "4354", "req:4353", "req:4354"]
     for f in FLAGS:
@@ -209,6 +233,8 @@ def run_impl(case):
         name = {"none": None, "same": "gw", "other": "xx"}[case["name"]]
         f = GatewayScanFilter(name, *[O3V[c] for c in case["filter"]])
         return str(int(f.match(gw)))
+    if t[1] == "scan":
+        return run_scan(t[2], t[3])
     if t[1] == "parse":
         dibs = []
         for d in ([] if t[2] == "-" else t[2].split(";")):
@@ -224,6 +250,48 @@ def run_impl(case):
         g.parse_dibs(dibs)
         return f"{gw_flags(g)} {g.core_version} {int(bool(g.supports_secure))}"
     return run_auto(case)
+
+
+def mk_dibs(spec):
+    dibs = []
+    for d in ([] if spec == "-" else spec.split(";")):
+        if d == "O":
+            dibs.append(DIBDeviceInformation())
+            continue
+        dib = DIBSuppSVCFamilies() if d[0] == "S" else DIBSecuredServiceFamilies()
+        for f in filter(None, d[2:].split(",")):
+            a, b = f.split(".")
+            dib.families.append(DIBSuppSVCFamilies.Family(DIBServiceFamily(int(a)), int(b)))
+        dibs.append(dib)
+    return dibs
+
+
+def run_scan(filt, rs):
+    """The real `GatewayScanner._response_rec_callback` on SearchResponse / SearchResponseExtended frames (built with the
+    library's classes and passed through to_knx/from_knx); outcome = descriptors put on the queue, then the final table."""
+    from xknx.io.gateway_scanner import GatewayScanner
+    from xknx.knxip import HPAI, KNXIPFrame, SearchResponse, SearchResponseExtended
+
+    flags = [c == "1" for c in filt]
+    sc = GatewayScanner(_xknx, scan_filter=GatewayScanFilter(None, *flags))
+    q = asyncio.Queue()
+    tr = SimpleNamespace(local_addr=("10.1.1.9", 0))
+    eps = {}
+    for r in ([] if rs == "-" else rs.split("|")):
+        k, rest = r.split("@")
+        ep, ds = rest.split("=")
+        hpai = HPAI(ip_addr=f"10.1.1.{int(ep)}", port=3671)
+        eps[(hpai.ip_addr, hpai.port)] = ep
+        body = (SearchResponse if k == "P" else SearchResponseExtended)(control_endpoint=hpai)
+        body.dibs = mk_dibs(ds)
+        frame = KNXIPFrame.init_from_body(body)
+        sc._response_rec_callback(frame, hpai, tr, interface="eth", queue=q)  # noqa: SLF001
+    ys = []
+    while not q.empty():
+        g = q.get_nowait()
+        ys.append(f"{eps[(g.ip_addr, g.port)]}:{gw_flags(g)}")
+    fin = [f"{eps[(h.ip_addr, h.port)]}:{gw_flags(g)}" for h, g in sc.found_gateways.items()]
+    return f"{','.join(ys) or '-'} => {','.join(fin) or '-'}"
 
 
 PLAIN_TUNNEL = {"tunnelling_tcp", "tunnelling_udp"}
@@ -250,6 +318,46 @@ def oracle(case, out):
                 return f"plain routing opened to gateway #{i} {f} announcing routing as secured"
             if m == "secure_tunnelling_tcp" and f[3] != "T":
                 pass  # upgrade, not a downgrade: allowed by the property
+        return None
+    if t[1] == "scan":
+        # what each endpoint announced in a secured-families DIB of an extended answer (the only place it can say so)
+        announced, inconsistent = {}, set()
+        for r in ([] if t[3] == "-" else t[3].split("|")):
+            k, rest = r.split("@")
+            ep, ds = rest.split("=")
+            if k != "E":
+                continue
+            a = set()
+            for d in ([] if ds == "-" else ds.split(";")):
+                if d.startswith("X:"):
+                    fams = {int(x.split(".")[0]) for x in filter(None, d[2:].split(","))}
+                    a = ({"T"} if DIBServiceFamily.TUNNELING.value in fams else set()) | ({"R"} if DIBServiceFamily.ROUTING.value in fams else set())
+            if ep in announced and announced[ep] != a:
+                inconsistent.add(ep)     # a device contradicting itself between answers: the latest answer counts, model only
+            announced[ep] = a
+        for ep in inconsistent:
+            announced.pop(ep, None)
+        core2, supp_seen = set(), {}
+        for r in ([] if t[3] == "-" else t[3].split("|")):
+            k, rest = r.split("@")
+            ep, ds = rest.split("=")
+            first = next((d for d in ([] if ds == "-" else ds.split(";")) if d.startswith("S:")), None)
+            supp_seen.setdefault(ep, set()).add(first)
+            if first is not None and any(int(x.split(".")[0]) == DIBServiceFamily.CORE.value and int(x.split(".")[1]) >= 2
+                                         for x in filter(None, first[2:].split(","))):
+                core2.add(ep)
+        # the clause is about a device that describes itself the same way in every answer; one that contradicts itself between
+        # its plain and its extended answer is compared with the model only
+        core2 = {ep for ep in core2 if len(supp_seen[ep]) == 1}
+        for part in out.split(" => "):
+            for e in ([] if part == "-" else part.split(",")):
+                ep, f = e.split(":")
+                # a device of core version 2 or later that announces a service as secured must never be reported (queued or
+                # kept in the table) as a gateway offering that service without security
+                if ep in core2 and "T" in announced.get(ep, ()) and (f[0] == "1" or f[1] == "1") and f[3] != "T":
+                    return f"endpoint {ep} announces tunnelling as secured but is reported as {f} (plain tunnelling would be chosen)"
+                if ep in core2 and "R" in announced.get(ep, ()) and f[2] == "1" and f[4] != "T":
+                    return f"endpoint {ep} announces routing as secured but is reported as {f} (plain routing would be chosen)"
         return None
     if t[1] == "match":
         f, filt, name = t[4], case["filter"], case["name"]
